@@ -97,6 +97,13 @@ func (w *World) verifyFunc(fc *FuncContract, props []string) (res *UnitResult) {
 		x.cover(st, "precondition is satisfiable", fn.Pos(), c.True(), fc.Props)
 	}
 	rets := x.runBody(fn, st, params, freevars, fc)
+	for _, cls := range fc.LoopStep {
+		for _, cl := range cls {
+			if x.stepApplied[cl.Text] == 0 {
+				res.Err = "CHECK-ERROR: step clause applies on no back edge (vacuous): " + cl.Text
+			}
+		}
+	}
 	for _, r := range rets {
 		x.curBlock = r.blk
 		envR := x.envFor(fn, r.st, x.entry, r.results)
@@ -161,8 +168,89 @@ func (w *World) verifyLemma(l *Lemma) (res *UnitResult) {
 	st := x.axiomState()
 	x.entry = st
 	env := &Env{x: x, st: st, old: st, names: map[string]TV{}}
-	t := x.evalBool(l.Expr, env)
+	// a top-level universal quantifier is proved for arbitrary fresh constants
+	body := l.Expr
+	for body.Op == "paren" {
+		body = body.Args[0]
+	}
+	if body.Op == "forall" {
+		for _, v := range body.Vars {
+			vt := w.resolveType(v.Type, nil)
+			var val Value
+			switch vt.Underlying().(type) {
+			case *types.Slice:
+				bv, _ := x.boundValue(v.Name, vt)
+				sq := bv.(SeqV)
+				ns := SeqV{C: map[string]*Term{}, Off: x.c.Fresh(v.Name+"_off", SInt), Len: x.c.Fresh(v.Name+"_len", SInt)}
+				for k, a := range sq.C {
+					ns.C[k] = x.c.Fresh(v.Name+k, a.sort)
+				}
+				x.hyps = append(x.hyps, x.c.Le(x.c.Int(0), ns.Len), x.c.Le(x.c.Int(0), ns.Off))
+				val = ns
+			default:
+				val = x.freshValue("L_"+v.Name, vt)
+				x.assumeRanges(st, val, vt)
+			}
+			env = env.bind(v.Name, TV{val, vt})
+		}
+		body = body.Args[0]
+	}
+	t := x.evalBool(body, env)
 	ob := &Obligation{Name: "lemma/" + l.Name, Kind: "lemma", Func: "lemma " + l.Name, Desc: l.Text, Pos: l.Where, Goal: t, NHyps: len(x.hyps), Props: l.Props, Clause: l.Text, ctx: x}
+	x.obls = append(x.obls, ob)
+	res.Obls = x.obls
+	return
+}
+
+// verifyClassified: the field list given in the contract file equals the struct's fields.
+func (w *World) verifyClassified(cl *Classified) (res *UnitResult) {
+	res = &UnitResult{Name: "classified " + cl.Type, Kind: "classified"}
+	fc := &FuncContract{Name: "classified." + cl.Type, Props: cl.Props}
+	x := NewExec(w, nil, fc)
+	x.curProps = cl.Props
+	res.Ctx = x
+	defer func() {
+		if r := recover(); r != nil {
+			if u, ok := r.(unsupportedErr); ok {
+				res.Err = "UNSUPPORTED: " + u.msg
+				return
+			}
+			panic(r)
+		}
+	}()
+	t := w.resolveType(cl.Type, nil)
+	st, ok := t.Underlying().(*types.Struct)
+	if !ok {
+		res.Err = "CHECK-ERROR: " + cl.Type + " is not a struct"
+		return
+	}
+	have := map[string]bool{}
+	for i := 0; i < st.NumFields(); i++ {
+		have[st.Field(i).Name()] = true
+	}
+	listed := map[string]bool{}
+	var extra, missing []string
+	for _, f := range cl.Fields {
+		listed[f] = true
+		if !have[f] {
+			extra = append(extra, f)
+		}
+	}
+	for i := 0; i < st.NumFields(); i++ {
+		if !listed[st.Field(i).Name()] {
+			missing = append(missing, st.Field(i).Name())
+		}
+	}
+	desc := fmt.Sprintf("every field of %s is classified (%d fields)", cl.Type, st.NumFields())
+	if len(missing) > 0 {
+		desc += "; NOT classified: " + strings.Join(missing, ", ")
+	}
+	if len(extra) > 0 {
+		desc += "; listed but not a field: " + strings.Join(extra, ", ")
+	}
+	okAll := len(missing) == 0 && len(extra) == 0
+	ob := &Obligation{Name: "classified/" + cl.Type, Kind: "classification", Func: "classified " + cl.Type, Desc: desc, Pos: cl.Where,
+		Goal: x.c.Bool(okAll), NHyps: 0, Props: cl.Props, Clause: "classified", ctx: x}
 	x.obls = append(x.obls, ob)
 	res.Obls = x.obls
 	return
